@@ -11,18 +11,23 @@ import AvoVerif.Props.C05Build
 #print axioms Avo.AsmText.parseOp_imm
 #print axioms Avo.AsmText.parseOp_mem
 #print axioms Avo.AsmText.parseOp_asm
+#print axioms Avo.AsmText.splitOps_joinOps
+#print axioms Avo.AsmText.asm_noComma
+#print axioms Avo.AsmText.line_roundtrip
 #print axioms Avo.AsmText.canon_value
 #print axioms Avo.AsmText.canon_unsigned
 #print axioms Avo.AsmText.canon_mem_address
 #print axioms Avo.AsmText.readImm_asm
 #print axioms Avo.AsmText.signExtend32_eq
 #print axioms Avo.AsmText.asmImm_value_partial
+#print axioms Avo.AsmText.immWanted_faithful
 #print axioms Avo.AsmText.asmImm_differs_without_guard
 #print axioms Avo.AsmText.asmImm_fails_at_F6
 #print axioms Avo.AsmText.build_first_match
 #print axioms Avo.AsmText.build_operands_kept
 #print axioms Avo.AsmText.regNames_ok
 #print axioms Avo.AsmText.parseOp_asm_regs
+#print axioms Avo.AsmText.line_roundtrip_regs
 #print axioms Avo.AsmText.const_verbs
 #print axioms Avo.AsmText.reg_anchors
 #print axioms Avo.AsmText.instr_build_eq
